@@ -38,6 +38,9 @@ MemNext(e, m) ==
 Judge(e) ==
   IF e.r.panic \/ e.r.hang
   THEN << R("C04", "returns_normally", TRUE, FALSE, e.op \o "/" \o e.fn) >>
+       \* a fatal runtime error (the runner found the call and reproduced it in a fresh process): whatever the property under check says
+       \* about this call's result, there is no result
+       \o (IF "fatal" \in DOMAIN e.r THEN << R(e.r.fatal, "call_returns_at_all", TRUE, FALSE, e.op \o "/" \o e.fn \o "/fatal") >> ELSE << >>)
   ELSE CASE e.op \in PrimOps -> JPrims(e)
          [] e.op = "Observe" -> JObserve(e, MemFor(e))
          [] e.op = "ReadSigned" -> << R(IF "ext" \in DOMAIN e THEN "X05" ELSE "C08", "signed_value_obtained_and_verifies", TRUE, e.r.setup /\ e.r.verify, e.fn \o "/" \o e.cls) >>
